@@ -153,7 +153,7 @@ Qed.
 Lemma map_dead_In id l n' :
   In n' (map (fun n => if N.eqb (n_id n) id
                        then {| n_id := id; n_alive := false; n_queue := n_queue n; n_running := n_running n;
-                               n_depth := n_depth n; n_setup := n_setup n; n_teardown := n_teardown n |}
+                               n_depth := n_depth n; n_setup := n_setup n; n_teardown := n_teardown n; n_started := n_started n |}
                        else n) l) ->
   exists n, In n l /\ n_queue n' = n_queue n /\ n_running n' = n_running n /\ n_depth n' = n_depth n.
 Proof.
